@@ -940,6 +940,18 @@ pub fn accrue(vm: &mut Vm, bank: &VenueBank, factor_ppm: u64) {
     vm.modify(&bank.reserve, |a| a.data[RS_BORROWED_WADS..RS_BORROWED_WADS + 16].copy_from_slice(&new_borrowed.to_le_bytes()));
 }
 
+/// A loss at the venue (the outside world acting): `factor_ppm` millionths of the borrowed liquidity are written off
+/// (never below the protocol fees, so total liquidity stays non-negative); no tokens move, the cToken supply is
+/// unchanged, so every cToken is worth LESS underlying - enough of it puts the reserve below par. Freshness untouched.
+pub fn loss(vm: &mut Vm, bank: &VenueBank, factor_ppm: u64) {
+    let factor_ppm = factor_ppm.min(1_000_000);
+    let d = vm.data(&bank.reserve).to_vec();
+    let b = rd_u128(&d, RS_BORROWED_WADS);
+    let fees = rd_u128(&d, RS_FEES_WADS);
+    let nb = (BigUint::from(b) * BigUint::from(1_000_000u64 - factor_ppm) / BigUint::from(1_000_000u64)).to_u128().unwrap_or(u128::MAX).max(fees.min(b));
+    vm.modify(&bank.reserve, |a| a.data[RS_BORROWED_WADS..RS_BORROWED_WADS + 16].copy_from_slice(&nb.to_le_bytes()));
+}
+
 /// The venue's exact exchange rate, underlying units per collateral unit, as a reduced fraction (num, den), read from
 /// the raw reserve account: (available*1e18 + borrowed_wads - protocol_fees_wads) / (1e18 * cToken supply).
 /// With no cTokens outstanding the rate is 1 (Solend's initial rate; marginfi leaves the price unadjusted then).
